@@ -38,7 +38,7 @@ func (*c05) Rule() string {
 		"Workload B (goals p(t1..tn) built in Go and injected through verif_in/2, one fresh interpreter per goal, first 5 answers then Close, step budget 200000): " +
 		"every procedure of a fresh interpreter (read from the running code through VerifProcedures; fallback: Register calls of interpreter.go + clause heads of bootstrap.pl) except halt/0,1, " +
 		"x ~200 argument shapes (unbound, shared variable, atoms, integers incl. extremes, floats, compounds, clauses, option terms, proper/partial/improper lists in every engine representation, strings, open/closed text and binary streams, aliases, callable and non-callable goals, 10^4-element and depth-1000/5000 terms): " +
-		"arity 1 all shapes; arity 2 all pairs of a reduced set (14; thorough 45) + the other shapes next to seeded partners; arity 3 pairwise-covering rows (quick) / all triples of a 16-shape set (thorough); arity 4-8 pairwise-covering rows + all combinations of 4 benign shapes (arity <= 5); a 5 % sample again as one term through call/1; " +
+		"arity 1 all shapes; arity 2 all pairs of a reduced set (14; thorough 45) + the other shapes next to seeded partners; arity 3 pairwise-covering rows (quick) / all triples of a 16-shape set (thorough); arity 4-8 pairwise-covering rows + all combinations of 4 benign shapes (arity <= 5); a 5 % sample again as one term through call/1 and, for every predicate that takes a file name or a stream plus another 5 % sample, as catch(Goal, _, true) (host errors reach the catcher as error(system_error, _)); " +
 		"plus a grid of evaluable functors x extreme numbers through is/2 and ~1150 hand-written corner goals. " +
 		"Refuting: death of the worker process attributed to the case (stack overflow, unrecovered panic, deadlock, runtime throw, signal, checkptr, out of memory at the 3 GiB cap); no return after 45 CPU-seconds (kernel CPU-time limit per case) on an input <= 4 KiB; " +
 		"for goals an error that is not an engine.Exception (host I/O errors excepted) or whose term is not error(Formal,_) with Formal in the ISO vocabulary (DESIGN Appendix C) - balls of throw/1 excepted; any returned error whose text/term shows a recovered Go panic. " +
@@ -593,6 +593,9 @@ func (c *c05) judgeGoal(cx *Ctx, m *c05Meta, it *Item, o *run.Outcome) Verdict {
 	if p.Via == "call" {
 		what += " (through call/1)"
 	}
+	if p.Via == "catch" {
+		what += " (as catch(Goal, _, true))"
+	}
 	key := "goal:" + p.Via + ":" + m.Goal
 	extra := map[string]int64{"goals": 1, "family_" + m.Family: 1}
 	sample := map[string]interface{}{"family": m.Family, "goal": m.Goal, "via": p.Via,
@@ -669,6 +672,12 @@ func (c *c05) judgeGoal(cx *Ctx, m *c05Meta, it *Item, o *run.Outcome) Verdict {
 		// the engine hands the Go error through on purpose (its own tests pin that) and catch/3 shows it as
 		// error(system_error, _); it is not an error about the shape of an argument
 		extra["not_asserted_host_io_error"]++
+		return v
+	}
+	if ex == nil && strings.Contains(m.Goal, "c05_bad") && (strings.HasPrefix(r.Err.GoType, "engine.") || r.Err.Text == "EOF" || r.Err.Text == "unexpected EOF") {
+		// the text of a loaded file was refused by the reader: returned as the API returns reader errors; not an
+		// error about the arguments of consult/1
+		extra["not_asserted_reader_error_of_a_loaded_text"]++
 		return v
 	}
 	if ex == nil {
